@@ -74,19 +74,19 @@ func sweepA() []Case {
 	}
 	b65, b64, b32 := &Node{Rnd: 65, Seed: 1}, &Node{Rnd: 64, Seed: 2}, &Node{Rnd: 32, Seed: 3}
 	shapes := map[string]*Node{
-		"rlp-empty-list":     nL(),
-		"rlp-empty-string":   &Node{},
-		"rlp-one-string":     b65,
-		"rlp-two-items":      nL(b65, b64),
-		"rlp-three-short":    nL(nB([]byte{1}), nB([]byte{2}), nB([]byte{3})),
-		"rlp-three-long":     nL(&Node{Rnd: 66, Seed: 1}, &Node{Rnd: 65, Seed: 2}, &Node{Rnd: 33, Seed: 3}),
-		"rlp-lists-for-items": nL(nL(b65), nL(b64), nL(b32)),
-		"rlp-four-items":     nL(b65, b64, b32, b32),
+		"rlp-empty-list":         nL(),
+		"rlp-empty-string":       &Node{},
+		"rlp-one-string":         b65,
+		"rlp-two-items":          nL(b65, b64),
+		"rlp-three-short":        nL(nB([]byte{1}), nB([]byte{2}), nB([]byte{3})),
+		"rlp-three-long":         nL(&Node{Rnd: 66, Seed: 1}, &Node{Rnd: 65, Seed: 2}, &Node{Rnd: 33, Seed: 3}),
+		"rlp-lists-for-items":    nL(nL(b65), nL(b64), nL(b32)),
+		"rlp-four-items":         nL(b65, b64, b32, b32),
 		"rlp-right-shape-random": nL(b65, b64, b32),
 		"rlp-right-shape-zero":   nL(&Node{Fill: 65}, &Node{Fill: 64}, &Node{Fill: 32}),
 		"rlp-right-shape-ff":     nL(&Node{Fill: 65, Byte: 0xff}, &Node{Fill: 64, Byte: 0xff}, &Node{Fill: 32, Byte: 0xff}),
-		"rlp-10k-items":      nL(nRep(10000, b32)),
-		"rlp-nested-1000":    nested(1000),
+		"rlp-10k-items":          nL(nRep(10000, b32)),
+		"rlp-nested-1000":        nested(1000),
 	}
 	for _, k := range sortedNodeKeys(shapes) {
 		env(k, &Payload{Tree: shapes[k]}, nil)
